@@ -685,6 +685,20 @@ theorem gen_fast_multiply_eq_model {α β γ : Type} (F : FieldOps α) (F2 : Fie
 example : TF.Gen.Poly.fast_multiply bfieldOps bfieldOps bfieldOps bfieldOps.mul (fun _ => none) (fun _ => none) (fun _ => none)
     [0, 0] [1] = some [] := by decide
 
+/-- regenerated `fast_square` (zero / constant special cases, `resize` of the RAW storage to `next_power_of_two(2·deg + 1)`,
+    `ntt`, pointwise squares, `intt`, `truncate`) on top of arbitrary transforms = hand model `fastSquare` -/
+theorem gen_fast_square_eq_model {α : Type} (F : FieldOps α) (T : Transform α) (p : List α) :
+    TF.Gen.Poly.fast_square F T.ntt T.intt p = fastSquare F T p := TF.GenBridge.Poly.fast_square_eq F T p
+example : TF.Gen.Poly.fast_square bfieldOps (fun _ => none) (fun _ => none) [3, 0, 0] = some [9] := by decide
+
+/-- **`fast_square_spec` for the regenerated code** -/
+theorem gen_fast_square_transfer {K : Type} [Field K] (root : Nat → Option K) {T : Transform K} {pts : Nat → Nat → K}
+    (hT : TransformSpec T pts) (p r : List K)
+    (h : TF.Gen.Poly.fast_square (FieldOps.ofField K root) T.ntt T.intt p = some r) : denote r = denote p ^ 2 := by
+  rw [gen_fast_square_eq_model] at h
+  exact fast_square_spec root hT p r h
+example : TransformSpec exampleTransform examplePts := exampleTransform_spec
+
 section transfer
 variable {K : Type} [Field K] (root : Nat → Option K)
 local notation "FK" => FieldOps.ofField K root
